@@ -14,7 +14,7 @@ import tempfile
 import urllib.parse
 import ocommon
 
-NAMES = ["a.js", "b c.js", "p%20q.js", "h#1.js", "q?x=1.js", "é.js", "sub/c.js", "sub/deep/d e.css", "s.css", "t+u.css", "x&y.js", "semi;colon.js", "quote'.js"]
+NAMES = [".hidden.js", ".theme/dark.css", "a.js", "b c.js", "p%20q.js", "h#1.js", "q?x=1.js", "é.js", "sub/c.js", "sub/deep/d e.css", "s.css", "t+u.css", "x&y.js", "semi;colon.js", "quote'.js"]
 
 
 def tree_bytes(d):
@@ -37,7 +37,7 @@ def run(R, job):
     try:
         srcs = []
         for k in range(3):
-            d = os.path.join(tmp, f"src{k}")
+            d = os.path.join(tmp, ["src0", "src [v2] 1", "src2*"][k])
             for f in NAMES:
                 p = os.path.join(d, f)
                 os.makedirs(os.path.dirname(p), exist_ok=True)
@@ -138,8 +138,9 @@ def run(R, job):
                     with open(stale, "w") as fh: fh.write("old")
                     break
             body = core.Tag("div", "x", *[d for d, *_ in deps])
-            recv = r.choice(["doc", "tag", "list"])
-            obj = {"doc": lambda: core.HTMLDocument(body), "tag": lambda: body, "list": lambda: core.TagList(body, "t")}[recv]()
+            recv = r.choice(["doc", "tag", "list", "html", "html-doc"])
+            obj = {"doc": lambda: core.HTMLDocument(body), "tag": lambda: body, "list": lambda: core.TagList(body, "t"),
+                   "html": lambda: core.Tag("html", core.Tag("body", body)), "html-doc": lambda: core.HTMLDocument(core.Tag("html", core.Tag("head"), core.Tag("body", body)))}[recv]()
             checked += 1
             names = [d.name for d, *_ in deps]
             if len(set(names)) != len(names):
